@@ -1,6 +1,8 @@
 #![allow(dead_code)]
 mod alphabet;
 mod checks;
+mod ebin;
+mod ecorpus;
 mod ecrash;
 mod efault;
 mod ehttp;
